@@ -161,6 +161,8 @@ type w4KeyState struct {
 	base            uint64 // version of the last update the connection received for the key
 	gen             int    // backend generation of that update
 	data            []byte
+	dataVer         uint64 // version of the update that supplied data
+	staleItem       bool   // a track reply replaced data by an item older than an update pushed before that reply
 	has             bool
 	pending         int    // track commands in flight that name the key
 	winClaim        uint64 // lowest version claimed by the in-flight track commands
